@@ -2,7 +2,7 @@
 // Concrete-content variants of the zero()/is_empty harnesses of c08_table.rs (measured: still 220-310 s, the iterator
 // adapters dominate, so they are thorough-tier). The quick-tier check of zero() is c09_page_table_zero_contract (c01_walker.rs). They license the `PageTable::zero` stub used by the mapper step harnesses.
 #[cfg(kani)]
-mod verif_c08_zero_quick {
+mod verif_c08_zero_concrete {
     use super::*;
 
     fn fill(t: &mut PageTable, v: u64) {
